@@ -4,8 +4,11 @@ Exhaustive enumeration over inheritance hierarchies {chain of 3, fork, diamond, 
 discriminator, fork with explicit str discriminator values}: one stored object per class (plus a holder
 object referencing each through a base-class reference). In a fresh session every SEQUENCE of access
 routes of length <= 2 (thorough 3) is executed -
-   holder.ref (seed through a base-class reference), holder.ref + attribute access, Base[pk], Sub[pk],
-   Sub.get(pk), select(x for x in C), C.select(), C.select_by_sql(), isinstance filters
+   holder.ref_C (seed through a reference declared with class C, for every class C the object is an instance
+   of), holder.ref + attribute access, Base[pk], Sub[pk], Sub.get(pk), select(x for x in C), C.select(),
+   C.select_by_sql(), select(h.ref_C for h in Holder), select((h.id, h.ref_C) for h in Holder) (objects
+   delivered as one column of a tuple), isinstance / not isinstance / isinstance-tuple filters over EVERY
+   iterated class B and every tested class C (base, same, subclass, sibling)
 - and after every step: each object obtained has exactly its creation class; each query over class C
 returns exactly the stored objects that are instances of C; isinstance(x, C) / isinstance(x, (C, D)) /
 not isinstance inside queries agree with Python isinstance on the creation classes; Sub[pk] of an
@@ -39,17 +42,23 @@ def build(hname):
                 attrs['kind'] = orm.Discriminator(int if h['disc'][0] == 'int' else str)
         else:
             attrs['x_' + cname.lower()] = orm.Optional(int)
+            attrs['holders_' + cname.lower()] = orm.Set('Holder', reverse='ref_' + cname.lower())
         if h['disc']: attrs['_discriminator_'] = h['disc'][1][cname]
         E[cname] = type(cname, tuple(E[b] for b in bases) or (db.Entity,), attrs)
-    E['Holder'] = type('Holder', (db.Entity,), dict(id=orm.PrimaryKey(int), ref=orm.Optional('Base')))
+    hattrs = dict(id=orm.PrimaryKey(int), ref=orm.Optional('Base', reverse='holders'))
+    for cname, bases in h['classes'][1:]: hattrs['ref_' + cname.lower()] = orm.Optional(cname, reverse='holders_' + cname.lower())
+    E['Holder'] = type('Holder', (db.Entity,), hattrs)
     db.bind('sqlite', ':memory:')
     db.generate_mapping(create_tables=True)
     names = [c for c, _ in h['classes']]
     with orm.db_session:
         for k, c in enumerate(names, 1):
             o = E[c](id=k, name=c)
-            E['Holder'](id=k, ref=o)
+            refs = dict(('ref_' + b.lower(), o) for b in names[1:] if b in mro_names(E, c))
+            E['Holder'](id=k, ref=o, **refs)
     return db, E, names
+
+def refattr(names, c): return 'ref' if c == names[0] else 'ref_' + c.lower()
 
 def mro_names(E, cname):
     return set(c.__name__ for c in E[cname].__mro__ if c.__name__ in E)
@@ -61,11 +70,13 @@ def routes(E, names):
         R.append(('holder', k)); R.append(('holder_attr', k)); R.append(('base_idx', k))
         for c in names[1:]:
             R.append(('cls_idx', c, k)); R.append(('cls_get', c, k))
+            if c in mro_names(E, names[k - 1]): R.append(('holder_c', k, c))
     R.append(('q_sql', names[0]))       # raw SQL over the whole table: only the root entity owns every column
     for c in names:
-        R += [('q_gen', c), ('q_select', c), ('q_isinst', c), ('q_notinst', c)]
+        R += [('q_gen', c), ('q_select', c), ('q_ref', c), ('q_tuple', c)]
+        for b in names: R += [('q_isinst', c, b), ('q_notinst', c, b)]
     for c, d in itertools.combinations(names, 2):
-        R.append(('q_isinst2', c, d))
+        for b in names: R.append(('q_isinst2', c, d, b))
     return R
 
 def step(E, names, r, orm):
@@ -75,6 +86,7 @@ def step(E, names, r, orm):
     created = dict((k, c) for k, c in enumerate(names, 1))
     inst = lambda c: sorted(k for k, cc in created.items() if c in mro_names(E, cc))
     if r[0] == 'holder': return ('objs', [(r[1], E['Holder'][r[1]].ref)], None)
+    if r[0] == 'holder_c': return ('objs', [(r[1], getattr(E['Holder'][r[1]], refattr(names, r[2])))], None)
     if r[0] == 'holder_attr':
         o = E['Holder'][r[1]].ref; o.name
         return ('objs', [(r[1], o)], None)
@@ -95,11 +107,19 @@ def step(E, names, r, orm):
     elif r[0] == 'q_sql':
         t = Base._table_ if isinstance(Base._table_, str) else Base._table_[-1]
         got = list(E[c].select_by_sql('select * from "%s"' % t)); exp = inst(c)
-    elif r[0] == 'q_isinst': got = list(orm.select('x for x in B if isinstance(x, C)', {'B': Base, 'C': E[c]}, {})); exp = inst(c)
-    elif r[0] == 'q_notinst': got = list(orm.select('x for x in B if not isinstance(x, C)', {'B': Base, 'C': E[c]}, {})); exp = sorted(set(created) - set(inst(c)))
+    elif r[0] == 'q_ref':
+        got = list(orm.select('h.%s for h in H if h.%s is not None' % ((refattr(names, c),) * 2), {'H': E['Holder']}, {})); exp = inst(c)
+    elif r[0] == 'q_tuple':
+        rows = list(orm.select('(h.id, h.%s) for h in H if h.%s is not None' % ((refattr(names, c),) * 2), {'H': E['Holder']}, {}))
+        got = [o for _, o in rows]; exp = inst(c)
+        if [k for k, _ in rows] != [o._pkval_ for o in got]: return ('notinstance', [(k, o) for k, o in rows], None)
+    elif r[0] == 'q_isinst':
+        got = list(orm.select('x for x in B if isinstance(x, C)', {'B': E[r[2]], 'C': E[c]}, {})); exp = sorted(set(inst(c)) & set(inst(r[2])))
+    elif r[0] == 'q_notinst':
+        got = list(orm.select('x for x in B if not isinstance(x, C)', {'B': E[r[2]], 'C': E[c]}, {})); exp = sorted(set(inst(r[2])) - set(inst(c)))
     elif r[0] == 'q_isinst2':
-        got = list(orm.select('x for x in B if isinstance(x, (C, D))', {'B': Base, 'C': E[c], 'D': E[r[2]]}, {}))
-        exp = sorted(set(inst(c)) | set(inst(r[2])))
+        got = list(orm.select('x for x in B if isinstance(x, (C, D))', {'B': E[r[3]], 'C': E[c], 'D': E[r[2]]}, {}))
+        exp = sorted((set(inst(c)) | set(inst(r[2]))) & set(inst(r[3])))
     return ('set', [(o.id, o) for o in got], exp)
 
 def worker(args):
